@@ -228,7 +228,7 @@ theorem filesView_step (s : St) (σ : Step) (k : Key) (t : TS) (hd : σ.deletes 
           simp [filesGet, CFile.get, hs]
         | some v =>
           right
-          refine ⟨rfl, hp, v, rfl, ?_⟩
+          refine ⟨trivial, hp, v, rfl, ?_⟩
           simp only [St.filesView]
           rw [filesGet_append]
           simp [filesGet, CFile.get, hs]
@@ -254,7 +254,7 @@ theorem snap_step (s : St) (σ : Step) (k : Key) (t : TS) (v : Val)
     simp only [step] at h ⊢
     split at h
     · right
-      refine ⟨rfl, ?_⟩
+      refine ⟨trivial, ?_⟩
       simp only [] at h
       simp [St.abs, St.cacheView, get_nil, h]
     · left; exact h
